@@ -15,6 +15,11 @@
 //	               pin | link part 0 | link part 1 | ... | write manifest | unpin. `!p` makes the p-th call fail
 //	               (only if it is a CreateHardLink). Afterwards the copy is inspected, opened with the real
 //	               initTSTable and queried.
+//	stb <op>...   the same on a real stream tsTable (with its real element index)
+//	ttb <op>...   the same on a real trace tsTable with one real secondary index (sidx); the call
+//	              MkdirPanicIfExist(<dst>/sidx/<name>) and the hard links of the index parts are hook points too
+//	              (call 0, calls 1..n), before the n core links and the manifest. `ttbx` marks cases that place
+//	              operations at those early calls (between the pin of the core snapshot and the pin of the index).
 //	db <op>...    a real storage.TSDB (daily segments, 2 shards) over real measure tables
 //	    w<d><h> write next batch into day d shard h     f<d><h> flush   m<d><h> merge all file parts
 //	    c<d> idle-close   h<d> hold (query pin)   r<d> release   x<d> retention-delete (delete+unlist)
@@ -32,9 +37,12 @@ import (
 	"strings"
 	"time"
 
+	"github.com/apache/skywalking-banyandb/banyand/backup"
 	"github.com/apache/skywalking-banyandb/banyand/internal/storage"
 	"github.com/apache/skywalking-banyandb/banyand/internal/verifdrv/drv"
 	"github.com/apache/skywalking-banyandb/banyand/measure"
+	"github.com/apache/skywalking-banyandb/banyand/stream"
+	"github.com/apache/skywalking-banyandb/banyand/trace"
 	"github.com/apache/skywalking-banyandb/pkg/fs"
 	"github.com/apache/skywalking-banyandb/pkg/logger"
 )
@@ -62,6 +70,7 @@ type hookState struct {
 	failAt  int
 	calls   int
 	armed   bool
+	mkdirPoints bool
 	running bool // a hook op is executing: its own FS calls are not snapshot sub-steps
 }
 
@@ -102,12 +111,64 @@ func (h *hookFS) CreateHardLink(src, dst string, filter func(string) bool) error
 	return h.FileSystem.CreateHardLink(src, dst, filter)
 }
 
+func (h *hookFS) MkdirPanicIfExist(path string, perm fs.Mode) {
+	if h.st.mkdirPoints {
+		h.point('m', path)
+	}
+	h.FileSystem.MkdirPanicIfExist(path, perm)
+}
+
 func (h *hookFS) CreateFile(name string, perm fs.Mode) (fs.File, error) {
 	h.point('c', name)
 	return h.FileSystem.CreateFile(name, perm)
 }
 
 // ---------------------------------------------------------------------------------------------------------
+
+// tableAPI is what the driver needs from an engine's table wrapper.
+type tableAPI interface {
+	AddBatch(rows []storage.VerifRow) uint64
+	Flush() int
+	Merge(pos []int) uint64
+	Snapshot(dst string) (bool, error)
+	Settle() bool
+	Refs() []storage.VerifPartInfo
+	Parts() ([]uint64, []bool)
+	SnapshotRef() int32
+	Query() ([]storage.VerifRow, error)
+	DiskPartIDs() []uint64
+	Close()
+}
+
+type engine struct {
+	open    func(fs.FileSystem, string) tableAPI
+	inspect func(fs.FileSystem, string) storage.VerifManifest
+	// stream: TakeFileSnapshot creates <dst>/idx with MkdirPanicIfExist, so dst must exist beforehand (as the shard
+	// directory does when a segment is snapshotted)
+	precreateDst bool
+	// trace: MkdirPanicIfExist(<dst>/sidx/<name>) sits between the pin of the core snapshot and the pin of the
+	// secondary index's snapshot, so it is a hook point too; and the copy's index is reported
+	mkdirPoints bool
+	index       bool
+}
+
+var (
+	measureEngine = engine{
+		open:    func(f fs.FileSystem, root string) tableAPI { return measure.VerifOpenTable(f, root) },
+		inspect: measure.VerifInspectDir,
+	}
+	streamEngine = engine{
+		open:         func(f fs.FileSystem, root string) tableAPI { return stream.VerifOpenTable(f, root) },
+		inspect:      stream.VerifInspectDir,
+		precreateDst: true,
+	}
+	traceEngine = engine{
+		open:        func(f fs.FileSystem, root string) tableAPI { return trace.VerifOpenTable(f, root) },
+		inspect:     trace.VerifInspectDir,
+		mkdirPoints: true,
+		index:       true,
+	}
+)
 
 func rowsOf(k int, base int64) []measure.VerifRow {
 	n := 1 + k%3
@@ -146,7 +207,7 @@ func sortedIDs(ids []uint64) []uint64 {
 	return out
 }
 
-func showParts(t *measure.VerifTable) string {
+func showParts(t tableAPI) string {
 	ids, mem := t.Parts()
 	if len(ids) == 0 {
 		return "-"
@@ -161,7 +222,7 @@ func showParts(t *measure.VerifTable) string {
 	return strings.Join(ss, ",")
 }
 
-func showRefs(t *measure.VerifTable) string {
+func showRefs(t tableAPI) string {
 	rr := t.Refs()
 	if len(rr) == 0 {
 		return "-"
@@ -253,8 +314,10 @@ func exists(p string) bool {
 }
 
 // inspectTableDir renders man= dirs= inc= other= for a table directory copy.
-func inspectTableDir(dir string) string {
-	m := measure.VerifInspectDir(realFS, dir)
+func inspectTableDir(dir string) string { return inspectDir(measureEngine, dir) }
+
+func inspectDir(e engine, dir string) string {
+	m := e.inspect(realFS, dir)
 	if m.Err == "absent" {
 		return "man=none dirs=- inc=- other=0"
 	}
@@ -274,37 +337,90 @@ func inspectTableDir(dir string) string {
 	if len(m.Epochs) > 1 {
 		other += len(m.Epochs) - 1
 	}
-	return fmt.Sprintf("man=%s dirs=%s inc=%s other=%d", man, showIDs(sortedIDs(m.Dirs)), showIDs(inc), other)
+	out := fmt.Sprintf("man=%s dirs=%s inc=%s other=%d", man, showIDs(sortedIDs(m.Dirs)), showIDs(inc), other)
+	if e.index {
+		out += " idx=" + showIDs(sortedIDs(m.IndexDirs))
+	}
+	return out
 }
 
 // openTableCopy opens a table directory with the real loader and queries everything.
-func openTableCopy(dir string, base int64) string {
+func openTableCopy(e engine, dir string, base int64) string {
 	return drv.Safe(func() string {
-		c := measure.VerifOpenTable(realFS, dir)
+		c := e.open(realFS, dir)
 		defer c.Close()
 		rows, err := c.Query()
 		if err != nil {
 			return "open=qerr oparts=- rows=-"
 		}
-		return fmt.Sprintf("open=ok oparts=%s rows=%s", showIDs(sortedIDs(c.DiskPartIDs())), showRows(rows, base))
+		out := fmt.Sprintf("open=ok oparts=%s rows=%s", showIDs(sortedIDs(c.DiskPartIDs())), showRows(rows, base))
+		if e.index {
+			out += " ikeys=" + showIndex(c)
+		}
+		return out
 	})
+}
+
+// showIndex renders the keys of the secondary index of a trace table (every trace is indexed under its value).
+func showIndex(t tableAPI) string {
+	tt, ok := t.(*trace.VerifTable)
+	if !ok {
+		return "-"
+	}
+	keys, present, err := tt.IndexEntries()
+	if err != nil {
+		return "err"
+	}
+	if !present {
+		return "none"
+	}
+	if len(keys) == 0 {
+		return "-"
+	}
+	ss := make([]string, len(keys))
+	for i, k := range keys {
+		ss[i] = strconv.FormatInt(k, 10)
+	}
+	return strings.Join(ss, ",")
 }
 
 // ---------------------------------------------------------------------------------------------------------
 // tbl
 
 type tblCase struct {
-	t     *measure.VerifTable
+	t        tableAPI
+	eng      engine
+	deferred []string // operations waiting for the publication mutex (trace)
 	hs    *hookState
 	dir   string
 	next  int
 	snapN int
 }
 
+// blocked reports whether a publication would have to wait right now.
+func (c *tblCase) blocked() bool {
+	p, ok := c.t.(interface{ CanPublish() bool })
+	return ok && !p.CanPublish()
+}
+
+// runDeferred performs the operations that were waiting, once the mutex is free.
+func (c *tblCase) runDeferred() {
+	for len(c.deferred) > 0 && !c.blocked() {
+		op := c.deferred[0]
+		c.deferred = c.deferred[1:]
+		c.maint(op)
+	}
+}
+
 func (c *tblCase) maint(op string) {
+	if c.blocked() {
+		c.deferred = append(c.deferred, op)
+		return
+	}
 	switch {
 	case op == "b":
 		c.next++
+		trace.VerifCandidates = append(trace.VerifCandidates, rowsOf(c.next, tsBase)...)
 		c.t.AddBatch(rowsOf(c.next, tsBase))
 	case op == "f":
 		c.t.Flush()
@@ -322,6 +438,11 @@ func (c *tblCase) snapshot(tok string) string {
 	sp := parseSnap(tok)
 	c.snapN++
 	dst := filepath.Join(c.dir, fmt.Sprintf("snap%d", c.snapN))
+	if c.eng.precreateDst {
+		if err := os.MkdirAll(dst, 0o755); err != nil {
+			panic(err)
+		}
+	}
 	pin := showParts(c.t)
 	var fired []string
 	var hookOut []string
@@ -330,12 +451,14 @@ func (c *tblCase) snapshot(tok string) string {
 	st.before = func(p int) {
 		fired = append(fired, strconv.Itoa(p))
 		hookOut = append(hookOut, fmt.Sprintf("%d:snap=%d;refs=%s", p, c.t.SnapshotRef(), showRefs(c.t)))
+		c.runDeferred()
 		for _, op := range sp.hooks[p] {
 			c.maint(op)
 		}
 	}
 	ok, err := c.t.Snapshot(dst)
 	st.armed = false
+	c.runDeferred()
 	if !c.t.Settle() {
 		panic("asynchronous part removal did not settle")
 	}
@@ -355,26 +478,30 @@ func (c *tblCase) snapshot(tok string) string {
 	if len(hookOut) > 0 {
 		h = strings.Join(hookOut, "/")
 	}
-	out := fmt.Sprintf("S ret=%s fired=%s kinds=%s pin=%s hooks=%s dst=%s %s", ret, f, showKinds(st.kinds), pin, h, drv.B01(exists(dst)), inspectTableDir(dst))
+	out := fmt.Sprintf("S ret=%s fired=%s kinds=%s pin=%s hooks=%s dst=%s %s", ret, f, showKinds(st.kinds), pin, h, drv.B01(exists(dst)), inspectDir(c.eng, dst))
 	if exists(dst) {
-		out += " " + openTableCopy(dst, tsBase)
+		out += " " + openTableCopy(c.eng, dst, tsBase)
 	} else {
 		out += " open=none oparts=- rows=-"
+		if c.eng.index {
+			out += " ikeys=none"
+		}
 	}
 	return out
 }
 
-func runTbl(ops []string) string {
+func runTbl(e engine, ops []string) string {
 	caseNo++
+	trace.VerifCandidates = nil
 	dir := filepath.Join(scratch, fmt.Sprintf("t%d", caseNo))
 	root := filepath.Join(dir, "tab")
 	if err := os.MkdirAll(root, 0o755); err != nil {
 		panic(err)
 	}
 	defer os.RemoveAll(dir)
-	hs := &hookState{failAt: -1}
-	c := &tblCase{hs: hs, dir: dir}
-	c.t = measure.VerifOpenTable(&hookFS{FileSystem: realFS, st: hs}, root)
+	hs := &hookState{failAt: -1, mkdirPoints: e.mkdirPoints}
+	c := &tblCase{hs: hs, dir: dir, eng: e}
+	c.t = e.open(&hookFS{FileSystem: realFS, st: hs}, root)
 	defer c.t.Close()
 	var recs []string
 	for _, op := range ops {
@@ -389,7 +516,11 @@ func runTbl(ops []string) string {
 	if err != nil {
 		q = "qerr"
 	}
-	recs = append(recs, fmt.Sprintf("F parts=%s snap=%d refs=%s rows=%s", showParts(c.t), c.t.SnapshotRef(), showRefs(c.t), q))
+	fin := fmt.Sprintf("F parts=%s snap=%d refs=%s rows=%s", showParts(c.t), c.t.SnapshotRef(), showRefs(c.t), q)
+	if e.index {
+		fin += " ikeys=" + showIndex(c.t)
+	}
+	recs = append(recs, fin)
 	return strings.Join(recs, " | ")
 }
 
@@ -604,8 +735,28 @@ func (c *dbCase) snapshot(tok string) string {
 		segs = append(segs, fmt.Sprintf("%d[meta=%s sidx=%s junk=%d %s]", d, meta, sidx, junk, strings.Join(shards, " ")))
 	}
 	out += " copy=" + strings.Join(segs, ";")
-	out += " " + drv.Safe(func() string {
-		cp, oerr := measure.VerifOpenDB(dst, 2, nil)
+	direct := queryCopy(dst)
+	out += " " + direct
+	// the same copy through the real backup upload loop and restore download loop (plain file-tree copies)
+	out += " bk=" + drv.Safe(func() string {
+		remote := filepath.Join(c.dir, fmt.Sprintf("remote%d", c.snapN))
+		root := filepath.Join(c.dir, fmt.Sprintf("restore%d", c.snapN))
+		if berr := backup.VerifBackupRestore(dst, remote, root, "measure"); berr != nil {
+			return "err"
+		}
+		restored := queryCopy(filepath.Join(root, "measure", "data"))
+		if dropEmpty(restored) == dropEmpty(direct) {
+			return "same"
+		}
+		return "diff:" + strings.ReplaceAll(restored, " ", "_")
+	})
+	return out
+}
+
+// queryCopy opens a database directory with the real OpenTSDB and queries every table.
+func queryCopy(dir string) string {
+	return drv.Safe(func() string {
+		cp, oerr := measure.VerifOpenDB(dir, 2, nil)
 		if oerr != nil {
 			return "open=err"
 		}
@@ -639,7 +790,22 @@ func (c *dbCase) snapshot(tok string) string {
 		}
 		return "open=ok q=" + strings.Join(qs, ";")
 	})
-	return out
+}
+
+// dropEmpty removes the entries of empty tables from a query rendering (a backup copies files, so directories
+// without files do not survive it).
+func dropEmpty(q string) string {
+	i := strings.Index(q, "q=")
+	if i < 0 {
+		return q
+	}
+	var keep []string
+	for _, it := range strings.Split(q[i+2:], ";") {
+		if !strings.HasSuffix(it, ":-:-") && it != "-" {
+			keep = append(keep, it)
+		}
+	}
+	return q[:i+2] + strings.Join(keep, ";")
 }
 
 // isJunk is the driver's own list of artifacts that must never appear in a snapshot (independent of the code's
@@ -712,7 +878,11 @@ func handle(f []string) string {
 	}
 	switch f[0] {
 	case "tbl":
-		return runTbl(f[1:])
+		return runTbl(measureEngine, f[1:])
+	case "stb":
+		return runTbl(streamEngine, f[1:])
+	case "ttb", "ttbx":
+		return runTbl(traceEngine, f[1:])
 	case "db":
 		return runDB(f[1:])
 	}
